@@ -723,6 +723,19 @@ def run_sequence(cfg_name, mode, t1, t2, acc, report=True):
             elif r.status != "ok" and err is not None:
                 ok = ok or _compare_tokens(got1, r) is None
         if not ok:
+            # the same text alone, on fresh objects: if that gives the very same tokens the deviation is a
+            # single-text matter (reported by the single-text space), not an effect of the interleaving
+            alone = World(cfg_name, SEQ_GRAMMARS)
+            a_toks, a_err = [], None
+            try:
+                for tok in alone.parsers[0][1].tokenizer.tokenize(t1, "t"):
+                    a_toks.append(tok)
+            except impl.LexicalError as e:
+                a_err = e
+            if (a_err is None) == (err is None) and [_tok_view(t) for t in a_toks] == [_tok_view(t) for t in got1]:
+                ok = True
+                outcome = "first-text-violates-alone"
+        if not ok:
             viols.append(("C04:sequence:resumed-generator-differs", dict(case, form="str"),
                           "a token generator that was suspended while another text was parsed does not "
                           "deliver the tokens of its own text", [_tok_view(t) for t in got1][:8],
